@@ -361,7 +361,7 @@ fn rand_dy(rng: &mut Sm64) -> f64 {
 }
 
 fn rand_pair<F: Fl>(rng: &mut Sm64, n: usize) -> (In<F>, In<F>) {
-    let mut one = |rng: &mut Sm64| In { straight: (0..n).map(|_| F::of(rand_dy(rng))).collect(), alpha: F::of(rand_dy(rng)) };
+    let one = |rng: &mut Sm64| In { straight: (0..n).map(|_| F::of(rand_dy(rng))).collect(), alpha: F::of(rand_dy(rng)) };
     let a = one(rng);
     let b = one(rng);
     (a, b)
@@ -371,6 +371,9 @@ fn rand_pair<F: Fl>(rng: &mut Sm64, n: usize) -> (In<F>, In<F>) {
 
 struct Plan {
     g: u32,
+    /// quick tier: the one-channel type (one event per per-channel case) takes only the (as, ab) pairs with an even
+    /// index sum; the three-channel types always take the whole grid
+    thin_single_channel: bool,
     random_cases: usize,
     eqn_inputs: usize,
     premul_random: usize,
@@ -388,6 +391,7 @@ where
     // the grid: every per-channel case for every mode/operator in the Alpha and PreAlpha forms, the opaque form on as = ab = 1
     for ias in 0..=g {
         for iab in 0..=g {
+            if p.thin_single_channel && C::N == 1 && (ias + iab) % 2 == 1 { continue; }
             let ins = grid_inputs::<F>(g, C::N, ias, iab);
             for (s, d) in &ins {
                 for form in FORMS {
@@ -468,7 +472,7 @@ where
     let mut rng = Sm64::new(seed ^ 0xA1FA ^ ((C::NAME.len() as u64) << 8) ^ ((F::NAME.len() as u64) << 20));
     for i in 0..p.premul_random {
         // arbitrary floats in [2^-20, 1] (not dyadic grid values): the product and the quotient are rounded
-        let mut r = |rng: &mut Sm64| F::of(if rng.below(4) == 0 { 2f64.powf(-20.0 * rng.unit()) } else { rng.range(1e-6, 1.0) });
+        let r = |rng: &mut Sm64| F::of(if rng.below(4) == 0 { 2f64.powf(-20.0 * rng.unit()) } else { rng.range(1e-6, 1.0) });
         let c: Vec<F> = (0..C::N).map(|_| r(&mut rng)).collect();
         let a = r(&mut rng);
         do_premul::<F, C>(o, PREMUL_VIAS[i % 4], &c, a);
@@ -616,8 +620,8 @@ fn main() {
     }
     let seed = seed_from_env();
     let thorough = arg_or("--tier", "quick") == "thorough";
-    let p = if thorough { Plan { g: 8, random_cases: 900, eqn_inputs: 4, premul_random: 300 } }
-            else { Plan { g: 4, random_cases: 0, eqn_inputs: 1, premul_random: 30 } };
+    let p = if thorough { Plan { g: 8, thin_single_channel: false, random_cases: 900, eqn_inputs: 4, premul_random: 300 } }
+            else { Plan { g: 4, thin_single_channel: true, random_cases: 0, eqn_inputs: 1, premul_random: 30 } };
     drive_all::<f32>(&mut o, &p, seed);
     drive_all::<f64>(&mut o, &p, seed);
     let counts = o.counts.clone();
